@@ -157,6 +157,50 @@ func assocArg(ps [][2][]byte) string {
 
 // ---- suites ------------------------------------------------------------------------------------
 
+// genFixedWidth: the typed helpers of data/encoding.go over the whole range of each width — both signs, the
+// powers of two and their neighbours, the extreme values, and uniformly random bit patterns.
+func genFixedWidth(g *G) {
+	r := g.R
+	g.in("fixed-width-boundaries")
+	for _, w := range []int{2, 4, 8} {
+		bits := uint(8 * w)
+		var us []uint64
+		for k := uint(0); k < bits; k++ {
+			p := uint64(1) << k
+			us = append(us, p-1, p, p+1)
+		}
+		us = append(us, 0, ^uint64(0)>>(64-bits), ^uint64(0)>>(64-bits)-1)
+		for _, u := range us {
+			u &= ^uint64(0) >> (64 - bits)
+			g.emit("fixedEncU", itoa(w), fmt.Sprint(u))
+			g.emit("fixedDecU", hx(u64(u)[8-w:]))
+			g.emit("fixedDecI", hx(u64(u)[8-w:]))
+			// the same bit pattern read as a signed value of this width
+			sv := int64(u<<(64-bits)) >> (64 - bits)
+			g.emit("fixedEncI", itoa(w), fmt.Sprint(sv))
+		}
+	}
+	g.in("fixed-width-random")
+	for i := 0; i < g.n(600, 20000); i++ {
+		w := r.pick(2, 4, 8)
+		bits := uint(8 * w)
+		u := r.next() >> uint(r.rng(0, 63)) & (^uint64(0) >> (64 - bits))
+		if r.coin(0.5) {
+			u = r.next() & (^uint64(0) >> (64 - bits))
+		}
+		switch r.intn(4) {
+		case 0:
+			g.emit("fixedEncU", itoa(w), fmt.Sprint(u))
+		case 1:
+			g.emit("fixedEncI", itoa(w), fmt.Sprint(int64(u<<(64-bits))>>(64-bits)))
+		case 2:
+			g.emit("fixedDecU", hx(u64(u)[8-w:]))
+		default:
+			g.emit("fixedDecI", hx(u64(u)[8-w:]))
+		}
+	}
+}
+
 func genIntegers(g *G) {
 	r := g.R
 	g.in("int-exhaustive-w1")
@@ -424,6 +468,6 @@ func genGoMaps(g *G) {
 }
 
 func init() {
-	suites["DATA"] = func(g *G) { genIntegers(g); genStrings(g); genDates(g) }
+	suites["DATA"] = func(g *G) { genIntegers(g); genFixedWidth(g); genStrings(g); genDates(g) }
 	suites["MAP"] = func(g *G) { genMappings(g); genGoMaps(g) }
 }
